@@ -555,7 +555,7 @@ func init() {
 	fw.Register(&fw.Check{
 		ID:    "C10",
 		Level: "model_checking",
-		Rule:  "every history of length 3 with 2 verified controller connections over the mirror-reduced alphabet (quick) / length 4 with 2 connections over the mirror-reduced alphabet, length 3 with 2 and with 3 connections over the full alphabet (thorough) over: subscribe, unsubscribe, changing write, non-changing write, a PUT writing two characteristics, a PUT entry that writes and subscribes / unsubscribes at once, application set (changing / non-changing), close, reconnect — on an observable bool of one accessory, an observable int of another, a characteristic without event permission, a second accessory's characteristic with the same instance id as the first, and out-of-range writes that are clamped, and a connection whose read blocks in an application callback and which then resets its socket (it stays registered but dead while later events happen); every history also from the non-initial state 'every connection subscribed and notified once' (one level less deep); real transport over TCP with real pair-verify, fresh system per history. After EVERY event a barrier request on every open connection collects the EVENT messages that arrived; they must equal the reference model (subscription relation × value × open set): exactly one EVENT with the new value per subscribed other connection, none to the originator, to unsubscribed or closed ones, none for unchanged values or characteristics without event permission. A mismatch is re-checked after 20 ms and 500 ms before it counts. states = histories executed, distinct_nontrivial = distinct (event, characteristic, per-connection expected EVENT count pattern) classes The alphabet is also explored (one level less deep) with an application that keeps the state itself (read callback answering from its state, typed remote-update callbacks — registered after the transport was created — following writes). Plus a depth-1 sweep over every observable readable constructor × its value alphabet (strings that look like protocol lines included): exactly one EVENT carrying exactly the value, and the connection stays in frame. Plus, in a subprocess built with a scheduling point before EVERY statement of hc's packages (textual insertion through go build -overlay): every interleaving with at most 1 (thorough 2) preemptions of pairs of operations on disjoint objects — and, where the property is about served requests, of pairs of handlers on two verified connections of one accessory touching different characteristics — each side must observe exactly what it observes when the two run one after the other (module-level mutable state is what makes them differ).",
+		Rule:  "every history of length 3 with 2 verified controller connections over the mirror-reduced alphabet (quick) / length 4 with 2 connections over the mirror-reduced alphabet, length 3 with 2 and with 3 connections over the full alphabet (thorough) over: subscribe, unsubscribe, changing write, non-changing write, a PUT writing two characteristics, a PUT entry that writes and subscribes / unsubscribes at once, application set (changing / non-changing), close, reconnect — on an observable bool of one accessory, an observable int of another, a characteristic without event permission, a second accessory's characteristic with the same instance id as the first, and out-of-range writes that are clamped, and a connection whose read blocks in an application callback and which then resets its socket (it stays registered but dead while later events happen); every history also from the non-initial state 'every connection subscribed and notified once' (one level less deep); real transport over TCP with real pair-verify, fresh system per history. After EVERY event a barrier request on every open connection collects the EVENT messages that arrived; they must equal the reference model (subscription relation × value × open set): exactly one EVENT with the new value per subscribed other connection, none to the originator, to unsubscribed or closed ones, none for unchanged values or characteristics without event permission. A mismatch is re-checked after 20 ms and 500 ms before it counts. states = histories executed, distinct_nontrivial = distinct (event, characteristic, per-connection expected EVENT count pattern) classes The alphabet is also explored (one level less deep) with an application that keeps the state itself (read callback answering from its state, typed remote-update callbacks — registered after the transport was created — following writes). Plus a depth-1 sweep over every observable readable constructor × its value alphabet (strings that look like protocol lines included): exactly one EVENT carrying exactly the value, none when the same value is set again, and the connection stays in frame. Plus, in a subprocess built with a scheduling point before EVERY statement of hc's packages (textual insertion through go build -overlay): every interleaving with at most 1 (thorough 2) preemptions of pairs of operations on disjoint objects — and, where the property is about served requests, of pairs of handlers on two verified connections of one accessory touching different characteristics — each side must observe exactly what it observes when the two run one after the other (module-level mutable state is what makes them differ).",
 		Run:   c10Run1,
 		Replay: func(c *fw.Ctx, raw json.RawMessage) {
 			var cas c10Case
@@ -625,6 +625,16 @@ func c10Payloads(c *fw.Ctx, part, parts int) {
 				continue
 			}
 			c.Class("payload:" + ch.Format)
+			// the same value once more (by the application, and — when writable — by another controller's write is the
+			// histories' business): nothing changed, no EVENT
+			if strings.Contains(cc.Name, "ProgrammableSwitchEvent") {
+				continue // the one type that notifies every update by design (a button pressed twice)
+			}
+			c.Eval(1)
+			ch.UpdateValue(v.V)
+			if _, evs, err := s.k.Do("GET", fmt.Sprintf("/characteristics?id=%d.%d", s.chars[0].Acc.ID, s.chars[0].Ch.ID), "", nil); err == nil && len(evs) != 0 {
+				c.Report("payload/event-for-unchanged-value/"+ch.Format, fmt.Sprintf("%s := %s a second time: %d EVENT messages although the value did not change", cc.Name, v.Label, len(evs)), cas)
+			}
 		}
 		s.k.Do("PUT", "/characteristics", refctl.CTJSON, []byte(fmt.Sprintf(`{"characteristics":[{"aid":%d,"iid":%d,"ev":false}]}`, cc.Acc.ID, ch.ID)))
 	}
